@@ -55,9 +55,17 @@ def mainCurvaturesAtDesignPoint( dim, g, dg, distObjs, corrMat,
     B, _ = gramSchmidOrth( A, alignVec=alignVec )
     H = np.array( B[ :, [ idx for idx in range( 1, dim )] + [ 0 ] ], dtype=float ).T
 
-    hm = hessianMatrix( g, dim, dx=dx )
-    lsfHmAtX = np.array( [ [ hmij( xCoord ) for hmij in hmi ] for hmi in hm ], 
-                         dtype=float )
+    # Second differences need the square root of the first difference spacing, taken 
+    # relative to the scale of each variable; otherwise round-off dominates the Hessian
+    stdX = np.array( [ distObj.std() for distObj in distObjs ], dtype=float )
+    xDesign = np.array( xCoord, dtype=float )
+
+    def lsfAtScaledX( Y ):
+        return g( xDesign + np.array( Y, dtype=float ) * stdX )
+
+    hm = hessianMatrix( lsfAtScaledX, dim, dx=np.sqrt( dx ) )
+    lsfHmAtX = np.array( [ [ hmij( [ 0.0 ] * dim ) for hmij in hmi ] for hmi in hm ], 
+                         dtype=float ) / np.outer( stdX, stdX )
     # Chain rule for the Hessian w.r.t. U: the marginal maps x_k = F_k^-1( Phi( z_k ) )
     # with Z = L U are curved themselves, d2x_k / dz_k^2 = x_k' ( -z_k - ( ln f_k )' x_k' )
     zCoord = np.dot( natafTrans.L, uCoord )
